@@ -447,6 +447,31 @@ exit:
 	return pat
 }
 
+// checkBackRefs panics if a back-reference %N stands between the parentheses of capture N
+// itself: the capture is still open there and has no extent (lstrlib: "invalid capture index").
+// ncap counts the captures seen so far, open holds the numbers of the captures not yet closed.
+func checkBackRefs(p pattern, ncap *int, open *[]int) {
+	switch pat := p.(type) {
+	case *seqPattern:
+		for _, cp := range pat.Patterns {
+			checkBackRefs(cp, ncap, open)
+		}
+	case *posCapPattern:
+		*ncap++
+	case *capPattern:
+		*ncap++
+		*open = append(*open, *ncap)
+		checkBackRefs(pat.Pattern, ncap, open)
+		*open = (*open)[:len(*open)-1]
+	case *numberPattern:
+		for _, n := range *open {
+			if n == pat.N {
+				panic(newError(_UNKNOWN, "invalid capture index"))
+			}
+		}
+	}
+}
+
 type iptr struct {
 	insts   []inst
 	capture int
@@ -620,6 +645,8 @@ func Find(p string, src []byte, offset, limit int) (matches []*MatchData, err er
 		}
 	}()
 	pat := parsePattern(newScanner([]byte(p)), true)
+	ncap, open := 0, []int{}
+	checkBackRefs(pat, &ncap, &open)
 	insts := compilePattern(pat)
 	matches = []*MatchData{}
 	for sp := offset; sp <= len(src); {
